@@ -67,6 +67,14 @@ macro_rules! each_enc {
             else { each_enc!(@emit $out, $prop, $ag, "stable", h, build_stable::<Undirected, $E>($ag, h, $rng), |$g, $fwd, $inv| $body) }
         }
     };
+    // f64 only: NaN-weighted self-loops on top of the abstract graph (never selectable by a spanning forest or a path,
+    // but present in every weight-ordered container the algorithm uses)
+    (@one graph_nan, $E:ty, $out:expr, $prop:expr, $ag:expr, $rng:expr, |$g:ident, $fwd:ident, $inv:ident| $body:expr) => {
+        for h in 0..3 {
+            if $ag.directed { each_enc!(@emit $out, $prop, $ag, "graph_nan", h, with_nan_loops(build_graph::<Directed, f64>($ag, h, $rng), $rng), |$g, $fwd, $inv| $body) }
+            else { each_enc!(@emit $out, $prop, $ag, "graph_nan", h, with_nan_loops(build_graph::<Undirected, f64>($ag, h, $rng), $rng), |$g, $fwd, $inv| $body) }
+        }
+    };
     (@one graphd, $E:ty, $out:expr, $prop:expr, $ag:expr, $rng:expr, |$g:ident, $fwd:ident, $inv:ident| $body:expr) => {
         if $ag.directed { for h in 0..3 { each_enc!(@emit $out, $prop, $ag, "graph", h, build_graph::<Directed, $E>($ag, h, $rng), |$g, $fwd, $inv| $body) } }
     };
@@ -116,6 +124,15 @@ macro_rules! each_enc {
 }
 
 pub type Fields = serde_json::Map<String, Value>;
+
+pub fn with_nan_loops<Ty: petgraph::EdgeType>(built: (petgraph::Graph<i32, f64, Ty, u32>, Vec<petgraph::graph::NodeIndex<u32>>), rng: &mut Rng) -> (petgraph::Graph<i32, f64, Ty, u32>, Vec<petgraph::graph::NodeIndex<u32>>) {
+    let (mut g, fwd) = built;
+    for _ in 0..1 + rng.below(2) {
+        let v = fwd[rng.below(fwd.len())];
+        g.add_edge(v, v, f64::NAN);
+    }
+    (g, fwd)
+}
 
 // ------------------------------------------------------------------------------------------ C09
 
@@ -210,6 +227,46 @@ fn c09_cond<Ty: petgraph::EdgeType>(g: &petgraph::Graph<i32, i64, Ty, u32>, f: &
     }
 }
 
+type FB = <petgraph::Graph<(), (), Directed, u32> as petgraph::visit::Visitable>::Map;
+
+/// a workspace created for a smaller graph and used there (every bit set), as a caller that keeps one DfsSpace
+/// across a growing graph would hand it over
+fn dirty_small_space(k: usize) -> algo::DfsSpace<petgraph::graph::NodeIndex<u32>, FB> {
+    let mut small: petgraph::Graph<(), (), Directed, u32> = petgraph::Graph::new();
+    let ids: Vec<_> = (0..k).map(|_| small.add_node(())).collect();
+    for w in ids.windows(2) {
+        small.add_edge(w[0], w[1], ());
+    }
+    let mut space = algo::DfsSpace::new(&small);
+    if k > 1 {
+        let _ = algo::has_path_connecting(&small, ids[0], ids[k - 1], Some(&mut space));
+    }
+    space
+}
+
+/// Graph / StableGraph (NodeIndex<u32>, FixedBitSet): reuse of a workspace that has to grow
+fn c09_grown_space<G>(g: G, fwd: &[G::NodeId], inv: &std::collections::HashMap<G::NodeId, usize>, f: &mut Fields, directed: bool)
+where
+    G: IntoNeighborsDirected + IntoNodeIdentifiers + Visitable<NodeId = petgraph::graph::NodeIndex<u32>, Map = FB> + Copy,
+{
+    let n = fwd.len();
+    if n > 10 { return; }
+    let k = (n / 2).max(1);
+    f.insert("hp4".into(), run(|| json!((0..n).map(|a| (0..n).map(|b| {
+        let mut space = dirty_small_space(if (a + b) % 2 == 0 { k } else { n.saturating_sub(1).max(1) });
+        algo::has_path_connecting(g, fwd[a], fwd[b], Some(&mut space))
+    }).collect::<Vec<_>>()).collect::<Vec<_>>())));
+    if directed {
+        f.insert("topo4".into(), run(|| {
+            let mut space = dirty_small_space(k);
+            match algo::toposort(g, Some(&mut space)) {
+                Ok(o) => json!(["order", o.iter().map(|x| inv[x]).collect::<Vec<_>>()]),
+                Err(c) => json!(["cycle", inv[&c.node_id()]]),
+            }
+        }));
+    }
+}
+
 pub fn c09_graph(out: &mut Out, ag: &AG, rng: &mut Rng) {
     if ag.n == 0 {
         return;
@@ -221,9 +278,17 @@ pub fn c09_graph(out: &mut Out, ag: &AG, rng: &mut Rng) {
         c09_nd(&g, &fwd, &inv, &mut f, d);
         c09_compact(&g, &mut f);
         c09_cond(&g, &mut f);
+        c09_grown_space(&g, &fwd, &inv, &mut f, d);
         f
     });
-    each_enc!(out, "C09", ag, rng, [stable, map, matrixd], |g, fwd, inv| {
+    each_enc!(out, "C09", ag, rng, [stable], |g, fwd, inv| {
+        let mut f = Fields::new();
+        c09_weak(&g, &fwd, &inv, &mut f, d);
+        c09_nd(&g, &fwd, &inv, &mut f, d);
+        c09_grown_space(&g, &fwd, &inv, &mut f, d);
+        f
+    });
+    each_enc!(out, "C09", ag, rng, [map, matrixd], |g, fwd, inv| {
         let mut f = Fields::new();
         c09_weak(&g, &fwd, &inv, &mut f, d);
         c09_nd(&g, &fwd, &inv, &mut f, d);
@@ -481,14 +546,19 @@ pub fn c12_graph(out: &mut Out, ag: &AG, rng: &mut Rng) {
         return;
     }
     let und = !ag.directed;
+    // graphs of this size are only generated as trees: the oracle then uses the cheap tree rule (all n-1 edges)
+    let big_tree = ag.n > 64;
     macro_rules! body { ($g:ident, $inv:ident, $prim:expr) => {{
         let mut f = Fields::new();
+        if big_tree { f.insert("tree".into(), json!(true)); }
         c12_kruskal(&$g, &$inv, &mut f);
         if und && $prim { c12_prim(&$g, &mut f); }
         f
     }}}
-    if rng.chance(1, 3) {
-        each_enc!(out, "C12", ag, rng, f64, [graph, stable, csr], |g, _fwd, inv| body!(g, inv, true));
+    if big_tree {
+        each_enc!(out, "C12", ag, rng, [graph, stable], |g, _fwd, inv| body!(g, inv, true));
+    } else if rng.chance(1, 3) {
+        each_enc!(out, "C12", ag, rng, f64, [graph, stable, csr, graph_nan], |g, _fwd, inv| body!(g, inv, true));
     } else {
         each_enc!(out, "C12", ag, rng, [graph, stable, csr], |g, _fwd, inv| body!(g, inv, true));
     }
@@ -1119,6 +1189,15 @@ pub fn sweep(prop: &str, seed: u64, exhaustive_n: usize, random: usize, nmax: us
             for _ in 0..(if directed { random } else { 5 * random }) {
                 let ag = if directed { layered_flow_ag(&mut rng) } else { blossom_ag(&mut rng) };
                 f(out, &ag, &mut rng);
+            }
+        }
+        if prop == "C12" && !directed {
+            // one component of more than 256 nodes absorbed set by set into one representative (a star, then a path):
+            // the union-find behind Kruskal must survive more unions than a u8 can count
+            for shape in 0..2 {
+                let n = 300;
+                let edges = (1..n).map(|i| (if shape == 0 { 0 } else { i - 1 }, i, 1 + (i as i64 * 7) % 5)).collect();
+                f(out, &AG { n, directed, edges }, &mut rng);
             }
         }
         if prop == "C09" || prop == "C12" {
